@@ -649,7 +649,27 @@ func (x *Exec) resolveModifies(env *Env, items []ModItem, where string) (map[str
 			case "allexcept":
 				all = true
 				for _, part := range strings.Split(it.T, ";") {
-					part = strings.TrimSpace(strings.TrimPrefix(strings.TrimSpace(part), "type "))
+					part = strings.TrimSpace(part)
+					if strings.HasPrefix(part, "maps[") && strings.HasSuffix(part, "]") {
+						// a whole map family stays as it is: "* except maps[map[string][]byte]"
+						mt, err := x.C.ResolveType(x.P, env.pkgPath, part[5:len(part)-1])
+						if err != nil {
+							env.fail("%v", err)
+						}
+						if _, ok := mt.Underlying().(*types.Map); !ok {
+							env.fail("modifies * except %s: not a map type", part)
+						}
+						prefix, ks, vls := x.mapInfo(mt)
+						x.modExcept = append(x.modExcept, prefix+".has", prefix+".len")
+						x.noteArr(prefix+".has", "(Array Int (Array "+ks+" Bool))")
+						x.noteArr(prefix+".len", "(Array Int "+x.sorts.Idx()+")")
+						for _, l := range vls {
+							x.modExcept = append(x.modExcept, prefix+".val"+l.suffix)
+							x.noteArr(prefix+".val"+l.suffix, "(Array Int (Array "+ks+" "+l.sort+"))")
+						}
+						continue
+					}
+					part = strings.TrimSpace(strings.TrimPrefix(part, "type "))
 					i := strings.LastIndex(part, ".")
 					if i < 0 {
 						env.fail("modifies * except: bad item %q", part)
